@@ -18,7 +18,14 @@ struct PS {
   const char* name = "source";
   int next_started = 0, next_completed = 0, cleanup_started = 0, cleanup_completed = 0;
   bool saw_stop = false;
-  std::function<void(bool)> complete_next;   // installed by a started next(): complete it (true = with a value)
+  // installed by a started next(): complete it (true = with a value).  A plain function pointer + object pointer (not a
+  // std::function): the hand-over between threads is serialised by the scheduler and published to ThreadSanitizer below
+  struct Fire {
+    void (*fn)(void*, bool) = nullptr; void* obj = nullptr;
+    explicit operator bool() const { return fn != nullptr; }
+    void operator()(bool v) const { VMC_TSAN_ACQ(obj); fn(obj, v); }
+    Fire& operator=(std::nullptr_t) { fn = nullptr; obj = nullptr; return *this; }
+  } complete_next;
   int produced = 0;
   bool consumer_result = false;
 };
@@ -42,12 +49,16 @@ struct PStream {
         if (s->next_started > s->next_completed) vmcrt::fail("C13", "next-concurrent", "next() started while the previous next() is still outstanding");
         ++s->next_started;
         cb.emplace(get_stop_token(r), Cb{s});
-        s->complete_next = [this](bool value) {
+        VMC_TSAN_REL(this);
+        s->complete_next.obj = this;
+        s->complete_next.fn = [](void* p, bool value) {
+          auto* self = static_cast<op*>(p);
+          PS* s = self->s;
           s->complete_next = nullptr;
-          cb.reset();
-          done = true;
+          self->cb.reset();
+          self->done = true;
           ++s->next_completed;
-          if (value) { int v = ++s->produced; unifex::set_value(std::move(r), int(v)); } else unifex::set_done(std::move(r));
+          if (value) { int v = ++s->produced; unifex::set_value(std::move(self->r), int(v)); } else unifex::set_done(std::move(self->r));
         };
       }
     };
@@ -79,6 +90,7 @@ struct Out { int count = 0; char how = '?'; int v = 0; };
 struct ORcv {
   Out* o; inplace_stop_token tok; kit::FreeCtl* ctl;
   void sig(char h, int v) noexcept {
+    vmc::publish();
     ++o->count; o->how = h; o->v = v;
     if (o->count > 1) vmcrt::fail("C13,C01", "completed-twice", "a stream operation completed more than once");
     if (ctl) ctl->free_now();
